@@ -26,7 +26,7 @@ RULE = ('Case = network spec (netgen: 2-6 junctions, tanks, pumps, valves, leaks
         'injected at the k-th primary solver call (k anywhere: absolute, inside a re-solve trial, at a partial '
         'step, at the last call; messages iteration limit / singular Jacobian / line search) | genuinely small '
         'MAXITER (0,1,2,3,5,8) or TIME_LIMIT 0; options.hydraulic.trials in {0,1,2,3,8}; backup solver absent / NewtonSolver '
-        'succeeding (real call) / NewtonSolver failing / scipy fsolve (with and without Jacobian); primary solver '
+        'succeeding (real call) / NewtonSolver failing / scipy fsolve (with and without Jacobian) / scipy broyden1, anderson, newton_krylov limited to two iterations (genuine failures); primary solver '
         'NewtonSolver or (1/8) scipy fsolve; convergence_error True/False. Enumerated part: one fixed looped '
         'tank network with a chain gadget off the grid x every solver call k x backup none/ok/fail x '
         'convergence_error x report ALL / 2*hyd, and trials 0..3 x osc/chain. Every case runs the model once without '
@@ -103,7 +103,8 @@ def _case(draw, tier):
             'mode': draw(st.sampled_from(['abs', 'abs', 'resolve', 'event', 'last'])),
             'k': draw(st.integers(0, 60)),
             'msg': draw(st.integers(0, 2)), 'backup_msg': draw(st.integers(0, 2)),
-            'backup': draw(st.sampled_from(['none', 'none', 'none', 'ok', 'ok', 'fail', 'fail', 'fsolve', 'fsolve_jac'])),
+            'backup': draw(st.sampled_from(['none', 'none', 'none', 'ok', 'ok', 'fail', 'fail', 'fsolve', 'fsolve_jac',
+                                            'broyden1', 'anderson', 'newton_krylov'])),
             'maxiter': draw(st.sampled_from([1, 2, 3, 5, 8, 0, -1])),      # -1: TIME_LIMIT 0 instead of an iteration limit
             'conv': draw(st.booleans()),
             'trials': draw(st.sampled_from([0, 1, 2, 3, REF_TRIALS]))}
@@ -245,7 +246,10 @@ def simulate(spec, cfg, inject_at):
     import wntr
     import wntr.sim.core as core
     from wntr.sim.solvers import NewtonSolver, SolverStatus
-    solvers = {'newton': NewtonSolver, 'fsolve': scipy.optimize.fsolve, 'fsolve_jac': scipy.optimize.fsolve}
+    solvers = {'newton': NewtonSolver, 'fsolve': scipy.optimize.fsolve, 'fsolve_jac': scipy.optimize.fsolve,
+               # scipy's quasi-Newton solvers (run_sim accepts them): two iterations never converge = a genuine failure
+               'broyden1': scipy.optimize.broyden1, 'anderson': scipy.optimize.anderson,
+               'newton_krylov': scipy.optimize.newton_krylov}
     sp = dict(spec)
     sp['opts'] = dict(spec['opts'], trials=trials)
     run = {'log': [], 'exc': None, 'aborted': False, 'warnings': [], 'trials': trials, 'conv': conv,
@@ -267,7 +271,7 @@ def simulate(spec, cfg, inject_at):
         if len(log) >= per_step and log[-per_step]['t'] == float(wn.sim_time):
             run['same_time_calls'] = per_step + 1
             raise _Abort()
-        role = 'backup' if ('BT_MAXITER' in opts or 'xtol' in opts) else 'primary'
+        role = 'backup' if ('BT_MAXITER' in opts or 'xtol' in opts or 'x_rtol' in opts) else 'primary'
         e = {'t': float(wn.sim_time), 'role': role, 'inj': False, 'status': None,
              'solver': backup_kind if role == 'backup' else primary}
         log.append(e)
@@ -299,6 +303,8 @@ def simulate(spec, cfg, inject_at):
         bopts = {'MAXITER': backup_maxiter, 'BT_MAXITER': 100} if backup_maxiter >= 0 else {'TIME_LIMIT': 0, 'BT_MAXITER': 100}
     elif backup_kind == 'fsolve':
         bopts = {'xtol': 1.49012e-08}
+    elif backup_kind in ('broyden1', 'anderson', 'newton_krylov'):
+        bopts = {'maxiter': 2, 'x_rtol': 1e-12}
     else:
         bopts = {'xtol': 1.49012e-08, 'use_jac': True}
     popts = ({'MAXITER': maxiter} if maxiter >= 0 else {'TIME_LIMIT': 0}) if primary == 'newton' else {}
@@ -751,7 +757,7 @@ def _once(case):
     primary = plan.get('solver', 'newton') if plan['kind'] != 'maxiter' else 'newton'
     single = plan['kind'] == 'none' and plan['trials'] == REF_TRIALS and not plan['conv'] and plan['backup'] == 'none'
     backup = plan['backup'] != 'none'
-    bkind = plan['backup'] if plan['backup'] in ('fsolve', 'fsolve_jac') else 'newton'
+    bkind = plan['backup'] if plan['backup'] in ('fsolve', 'fsolve_jac', 'broyden1', 'anderson', 'newton_krylov') else 'newton'
     cap = call_cap(spec, plan['trials'], backup)
     common = {'primary': primary, 'backup': backup, 'backup_kind': bkind, 'cap': cap}
     if plan['kind'] == 'inject':
